@@ -102,10 +102,9 @@ func (prop) Work(c core.Case) core.Result {
 	for _, p := range cd.Progs {
 		res.Evals++
 		g := gotypes.Check(p.Src, libImporter{})
-		if !g.Accepted() && strings.Contains(g.FirstError(), "constant result is not representable") {
-			// an implementation restriction of go/constant (complex division
-			// with astronomically large exponents), not a rule of the language
-			res.Counts["reference_implementation_restriction"]++
+		if why := gotypes.NotTrusted(g); why != "" {
+			// the reference deviates from the language specification here
+			res.Counts["reference_not_trusted"]++
 			continue
 		}
 		if sc := inScope(g, cd.Scopes); sc != "" {
@@ -205,6 +204,8 @@ func (prop) Drive(d *core.Driver) error {
 	d.T.Rule = fmt.Sprintf("%d type-directed random programs (gen/typedprog: basic and named types, structs, slices, arrays, maps, pointers, closures, channels, multiple returns, variadics, defer, labelled loops, switches, type switches, select, optional import of the native package lib) each verified by go/types, each with %d single-point mutants (17 AST-guided edit classes incl. inserting one of %d near-miss snippets); every import-free run/compile/errorcheck program of /repo/test/compare/testdata plus %d mutants of them. Each program is judged by go/types (go1.20) and built by scriggo.Build; only accept/reject and the dynamic type of the error are compared. distinct_nontrivial counts distinct (origin, mutation class, verdict, reference error class) tuples", nBase, nMut, len(typedprog.Snippets), nCorpusMut)
 	d.T.Assumptions = []string{
 		"go/parser + go/types of the go1.25 standard library with GoVersion go1.20 are the reference (min/max/clear, range over int/func are rejected by both sides)",
+		"programs touching a point where go/types deviates from the specification (constant shift counts above 1074 or of typed floating-point type, copy(nil, string), go/constant's complex-division limit) are not judged (reference_not_trusted)",
+		"go/types is supplemented by three rules of the specification/gc it does not implement: the package must be main, it must declare func main, and a function declaration needs a body",
 		"a program go/types accepts is required to build only if a scan finds no method declaration, non-empty interface type, generics, slice-to-array conversion or foreign import (scriggo's documented subset); such programs are counted as outside_subset",
 	}
 	var progs []Prog
